@@ -109,3 +109,28 @@ Qed.
 Theorem loaded_location_table_has_one_location_per_number L v ls :
   mrgn_decode L v = Ok ls -> NoDup (map fst (by_idx ls)).
 Proof. intros H. exact (proj2 (mrgn_decode_locs_indices L _ _ _ H)). Qed.
+
+(* ---- and the slot itself, read back by a later load: the location with the authored rectangle, name and elevation flags,
+        carrying the slot's number ------------------------------------------------------------------------------------------------ *)
+From RC Require Import model.Flags proofs.Flags_proofs proofs.C12_proofs proofs.C04_readback gen.GenFlags.
+
+Theorem an_emitted_location_slot_reads_back L l slot i0 :
+  loc_encode L l = Ok slot -> length (l_elev l) = 6%nat -> N.of_nat (length (sl_by_id L)) <= 1000000 ->
+  loc_is_unused slot = false ->                          (* content equal to an empty slot is the recorded C11 finding *)
+  mrgn_decode_locs L [slot] i0 =
+    Ok [{| l_x1 := l_x1 l; l_y1 := l_y1 l; l_x2 := l_x2 l; l_y2 := l_y2 l; l_name := l_name l; l_idx := Some (i0 + 1);
+           l_elev := l_elev l; l_oid := 0 |}].
+Proof.
+  intros H Hlen Hsmall Hused. unfold loc_encode in H. inv_bind H as sid Hsid Hk. inv_bind Hk as fl Hfl Hk2.
+  assert (slot = mk_struct [("_left_x1", VInt (l_x1 l)); ("_top_y1", VInt (l_y1 l)); ("_right_x2", VInt (l_x2 l));
+                            ("_bottom_y2", VInt (l_y2 l)); ("_string_id", VInt sid); ("_elevation_flags", VInt fl)]) as ->
+    by congruence.
+  clear Hk2. cbn [mrgn_decode_locs bind]. rewrite Hused.
+  change (vint "_elevation_flags" (mk_struct _)) with fl. change (vint "_left_x1" (mk_struct _)) with (l_x1 l).
+  change (vint "_top_y1" (mk_struct _)) with (l_y1 l). change (vint "_right_x2" (mk_struct _)) with (l_x2 l).
+  change (vint "_bottom_y2" (mk_struct _)) with (l_y2 l). change (vint "_string_id" (mk_struct _)) with sid.
+  destruct (id_by_str_resolves _ _ _ Hsmall Hsid) as [-> _].
+  unfold flags_to in Hfl. unfold flags_of.
+  destruct (elevation_flags_rich (l_elev l) Hlen) as (x0 & E0 & _ & D0). rewrite E0 in Hfl. inversion Hfl; subst x0.
+  rewrite D0. cbn [bind]. unfold rich_of_bools. rewrite map_snd_combine; [reflexivity|]. rewrite map_length, Hlen. reflexivity.
+Qed.
